@@ -94,6 +94,7 @@ func newExec(s *scn.Scenario, opt Options) *exec {
 	x := &exec{s: s, res: &Result{Stats: NewStats()}, solos: map[string]Outcome{}, usedCompared: map[int]int{}}
 	x.sim = &Sim{cfg: s.Cfg, st: x.res.Stats, trace: opt.Trace}
 	x.sim.current.Store(-1)
+	x.sim.waitTask.Store(-1)
 	useNS = s.Cfg.NS
 	// a new bindings map per run, shared by every Compile of the run (callers do
 	// share one map between goroutines); the xml prefix is deliberately not declared
@@ -106,7 +107,7 @@ func newExec(s *scn.Scenario, opt Options) *exec {
 
 func (x *exec) viol(kind, class, detail string, step int) {
 	v := Violation{Prop: x.s.Prop, Kind: kind, Class: class, Detail: detail, Step: step}
-	if cur := x.sim.current.Load(); cur >= 0 {
+	if cur := x.sim.who(); cur >= 0 {
 		t := x.sim.tasks[cur] // on a task goroutine: task-private sink, merged by main at the end
 		t.viol = append(t.viol, v)
 		return
